@@ -54,17 +54,17 @@ var faultNames = []string{"none", "wrong-key-link", "intermediate-expired", "int
 
 // benign variations (bit mask)
 const (
-	bNoKeyUsage    = 1 << iota // CAs carry no key usage extension at all
-	bExactPathLen              // every CA carries the tightest path length that still fits
-	bNCSatisfied               // the root carries permitted and excluded constraints of all four name kinds and everything below complies
-	bCNOutside                 // leaf CommonName lies outside the permitted subtree while its SANs comply (soft)
-	bCAEKU                     // CAs list serverAuth+clientAuth
-	bLeafEKU                   // leaf lists serverAuth
-	bEdgeValidity              // leaf NotAfter == verification time, issuer NotBefore == verification time
-	bNoise                     // pool holds a CA with the leaf issuer's name but another key
-	bUnsetPathLen              // CAs use MaxPathLen -1 instead of the zero value
-	bIntSAN                    // intermediates carry SANs of all four kinds that conform to every constraint used here
-	nBenignBits    = 10
+	bNoKeyUsage   = 1 << iota // CAs carry no key usage extension at all
+	bExactPathLen             // every CA carries the tightest path length that still fits
+	bNCSatisfied              // the root carries permitted and excluded constraints of all four name kinds and everything below complies
+	bCNOutside                // leaf CommonName lies outside the permitted subtree while its SANs comply (soft)
+	bCAEKU                    // CAs list serverAuth+clientAuth
+	bLeafEKU                  // leaf lists serverAuth
+	bEdgeValidity             // leaf NotAfter == verification time, issuer NotBefore == verification time
+	bNoise                    // pool holds a CA with the leaf issuer's name but another key
+	bUnsetPathLen             // CAs use MaxPathLen -1 instead of the zero value
+	bIntSAN                   // intermediates carry SANs of all four kinds that conform to every constraint used here
+	nBenignBits   = 10
 )
 
 type chainCase struct {
@@ -111,7 +111,7 @@ type truth struct {
 	eku        []x509.ExtKeyUsage
 	critExt    bool
 	sha1Signed bool
-	faulty     bool // a hard fault sits on this certificate or on its issuing link
+	faulty     bool   // a hard fault sits on this certificate or on its issuing link
 	okUnder    *truth // the issuer under whose key the independent verifier already accepted the signature
 
 	der        []byte
@@ -194,13 +194,13 @@ func (p *pki) rnd(label uint64) *gen.DetReader {
 // alter the parent handed to CreateCertificate.
 func (p *pki) issue(t *truth, serial int64, signer *truth, signKey crypto.Signer, parentTweak func(*x509.Certificate), alg x509.SignatureAlgorithm) error {
 	tmpl := &x509.Certificate{
-		SerialNumber:          big.NewInt(serial),
-		Subject:               pkix.Name{CommonName: t.name, Organization: []string{"C15 链"}},
-		NotBefore:             t.notBefore,
-		NotAfter:              t.notAfter,
-		KeyUsage:              t.ku,
-		BasicConstraintsValid: t.ca || t.bcNonCA,
-		IsCA:                  t.ca,
+		SerialNumber:            big.NewInt(serial),
+		Subject:                 pkix.Name{CommonName: t.name, Organization: []string{"C15 链"}},
+		NotBefore:               t.notBefore,
+		NotAfter:                t.notAfter,
+		KeyUsage:                t.ku,
+		BasicConstraintsValid:   t.ca || t.bcNonCA,
+		IsCA:                    t.ca,
 		PermittedDNSDomains:     t.permDNS,
 		ExcludedDNSDomains:      t.exclDNS,
 		PermittedIPRanges:       t.permIP,
@@ -211,9 +211,9 @@ func (p *pki) issue(t *truth, serial int64, signer *truth, signKey crypto.Signer
 		ExcludedURIDomains:      t.exclURI,
 		IPAddresses:             t.ips,
 		EmailAddresses:          t.emails,
-		DNSNames:              t.dns,
-		ExtKeyUsage:           t.eku,
-		SignatureAlgorithm:    alg,
+		DNSNames:                t.dns,
+		ExtKeyUsage:             t.eku,
+		SignatureAlgorithm:      alg,
 	}
 	if t.ca {
 		switch {
@@ -844,6 +844,15 @@ func checkChain(c chainCase, r *h.Rec) error {
 	if c.Lazy {
 		r.Label("pool-lazy")
 	}
+	if c.Fault == fIntSAN {
+		r.Label("int-san-fault-%s-%s", []string{"dns", "ip", "email", "uri"}[c.SANKind], map[bool]string{true: "excluded", false: "permitted"}[c.Tight])
+	}
+	if c.Benign&bIntSAN != 0 && k > 0 {
+		r.Label("intermediates-with-conforming-sans")
+		if c.Benign&bNCSatisfied != 0 {
+			r.Label("intermediates-with-conforming-sans-under-root-constraints")
+		}
+	}
 	kts := append([]int{c.RootKT, c.LeafKT}, c.IntKT...)
 	nSM2 := 0
 	for _, kt := range kts {
@@ -1042,7 +1051,9 @@ func TestC15_ChainSM2Root(t *testing.T) {
 
 func TestC15_ChainMixed(t *testing.T) {
 	h.Prop(t, h.P{Name: "chain-mixed", Quick: 300, Thorough: 6000},
-		func(rt *rapid.T) chainCase { return genChainCase(rt, []int{kP256, kEd25519, kP384, kSM2}, fastKTs, allFaults()) }, checkChain)
+		func(rt *rapid.T) chainCase {
+			return genChainCase(rt, []int{kP256, kEd25519, kP384, kSM2}, fastKTs, allFaults())
+		}, checkChain)
 }
 
 func TestC15_ChainRSA(t *testing.T) {
